@@ -127,6 +127,10 @@ func (iv *Value) ValueFrom(value any) {
 		}
 	case ItemTypeArray:
 		rt := reflect.TypeOf(value)
+		if rt == nil {
+			// untyped nil: nothing to store
+			return
+		}
 		if rt.Kind() == reflect.Slice || rt.Kind() == reflect.Array {
 			data, err := json.Marshal(value)
 			if err != nil {
@@ -144,6 +148,10 @@ func (iv *Value) ValueFrom(value any) {
 		}
 	case ItemTypeObject:
 		rt := reflect.TypeOf(value)
+		if rt == nil {
+			// untyped nil: nothing to store
+			return
+		}
 		if rt.Kind() == reflect.Pointer {
 			rt = rt.Elem()
 		}
